@@ -694,13 +694,17 @@ class Unflatten:
     """Turn a flat template (genprog node list) into a family whose hand-flattening is that template."""
 
     def __init__(self, rng, uid, names, p_block=0.5, p_include=0.2, max_levels=3, allow_fill_segments=True,
-                 skip_slot_bodies=False, skip_comp_bodies=False):
+                 skip_slot_bodies=False, skip_comp_bodies=False, levels=None, inc_names=None):
         self.r = rng
         self.uid = uid
         self.names = names            # callable: () -> fresh block name (unique within this family)
         self.p_block = p_block
         self.p_include = p_include
-        self.levels = rng.randint(1, max_levels - 1)   # number of templates above... = len(chain)
+        # number of templates that say {% extends %} (= len(chain)); 0 = a plain template whose blocks show their own content
+        self.levels = rng.randint(1, max_levels - 1) if levels is None else levels
+        # factory of block-name generators for included templates: stock {% include %} isolates the render context, so an
+        # included template (family) has its OWN block namespace and may re-use the names of the including family
+        self.inc_names = inc_names
         self.chain = [[] for _ in range(self.levels)]  # leaf first; each a list of top-level nodes of that child template
         self.inc = {}
         self.ninc = 0
@@ -806,8 +810,17 @@ class Unflatten:
             with_kw = [(seg[0][1], seg[0][2])]
             seg = list(seg[0][3])
             self.stats.add("include-with")
-        # the included template may itself be a family
-        if self.r.random() < 0.3:
+        # the included template may itself be a family, or a plain template with blocks; with `inc_names` it draws its block
+        # names independently of the including family (name re-use across the isolation of {% include %})
+        if self.inc_names is not None and self.r.random() < 0.8:
+            sub = Unflatten(self.r, "%s_i%d" % (self.uid, self.ninc), self.inc_names(), self.r.choice([0.6, 0.8]), 0.0, 3,
+                            self.allow_fill_segments, self.skip_slot_bodies, self.skip_comp_bodies, levels=self.r.choice([0, 0, 1]))
+            fam = sub.run(list(seg))
+            self.stats.add("include-own-namespace")
+            if fam["chain"]:
+                self.stats.add("include-family")
+            self.stats |= sub.stats
+        elif self.r.random() < 0.3:
             sub = Unflatten(self.r, "%s_i%d" % (self.uid, self.ninc), self.names, self.p_block, 0.0, 3, self.allow_fill_segments,
                             self.skip_slot_bodies, self.skip_comp_bodies)
             fam = sub.run(list(seg))
@@ -1072,18 +1085,49 @@ def reach_components(fp):
 
 def shares_block_context(fp):
     """Trigger class c10-blockcontext-shared (decided on the program text only): some component whose template family
-    declares block names can be instantiated while a BlockContext that already holds a block of one of those names is
-    current - over-approximated as: its family shares a block name with another template family of the program, or
-    it is written with {% extends %} and one of its tags can be evaluated inside its own instance."""
+    declares block names can be instantiated while the BlockContext on the TOPMOST render-context layer already holds a
+    block of one of those names.  Which families can have put blocks there:
+      seen(page) = {page};  seen(include) = {that include}  (stock {% include %} renders on a fresh, isolated layer);
+      seen(component C) = {C} + what is on top at each of C's tags: seen(G) for a tag written in family G outside every
+      component body; for a tag inside the body of a component tag (evaluated in some slot, on a re-pushed layer) every
+      family of the program (over-approximation).
+    C is in the class iff its names meet the names of a family (other than C) seen at one of its tags, or it is written with
+    {% extends %} and one of its tags can be evaluated inside its own instance (django mode)."""
     fams = [("page", fp["page"])] + [("comp:" + c, f) for c, f, _ in fp["lib"]] + [("inc:" + n, f) for n, f in fp["inc"].items()]
     names = {k: fam_names(f) for k, f in fams}
+    everything = set(names)
+    # tag sites: (component, family key it is written in, inside a component body?)
+    sites = []
+
+    def scan(ts, key, inside):
+        for t in ts:
+            if t[0] == "comp":
+                sites.append((t[1], key, inside))
+            for i in BODY_IDX.get(t[0], ()):
+                scan(t[i], key, inside or t[0] == "comp")
+    for k, f in fams:
+        for tt in f["chain"] + [f["root"]]:
+            scan(tt, k, False)
+    seen = {k: {k} for k in names}
+    changed = True
+    while changed:
+        changed = False
+        for c, g, inside in sites:
+            kc = "comp:" + c
+            if kc not in seen:
+                continue
+            add = everything if inside else seen[g]
+            if not add <= seen[kc]:
+                seen[kc] |= add
+                changed = True
     reach = None
     for c, fam, _ in fp["lib"]:
-        mine = names["comp:" + c]
+        kc = "comp:" + c
+        mine = names[kc]
         if not mine:
             continue
-        for k, other in names.items():
-            if k != "comp:" + c and mine & other:
+        for k in sorted(seen[kc]):
+            if k != kc and mine & names[k]:
                 return "names:%s~%s" % (c, k)
         if fam["chain"] and fp["mode"] == "django":
             reach = reach or reach_components(fp)
@@ -1214,6 +1258,8 @@ def make_family_program(rng, prog, uid, collide=False, which=None, knobs=None):
         kn = dict(knobs or {})
         if key == "page":
             kn.pop("skip_slot_bodies", None)
+        if kn.pop("inc_own_namespace", False):
+            kn["inc_names"] = lambda key=key: names_for(key + "_inc")
         u = Unflatten(rng, "%s_%s" % (uid, key), names_for(key), p_block=rng.choice([0.3, 0.5, 0.7]),
                       p_include=kn.pop("p_include", rng.choice([0.0, 0.15, 0.3])), **kn)
         fam = u.run(list(ts))
@@ -1224,6 +1270,14 @@ def make_family_program(rng, prog, uid, collide=False, which=None, knobs=None):
           "lib": [(c, fam_of(c, cd["tpl"]), cd["data"]) for c, cd in prog["lib"]],
           "inc": inc, "ctx": prog["ctx"], "mode": prog["mode"], "uid": uid, "stats": sorted(stats)}
     return fp
+
+
+def without_component_families(fp):
+    """the same program with every COMPONENT template family replaced by its hand-flattened template (includes used by
+    component templates inlined); the page family and the templates it includes stay families.  No component declares a
+    block any more, so the result is outside both known classes by construction."""
+    return dict(fp, lib=[(c, {"chain": [], "root": fam_flatten(f, fp["inc"])}, d) for c, f, d in fp["lib"]],
+                stats=sorted(set(fp["stats"]) | {"component-families-flattened"}))
 
 
 def flatten_family_program(fp):
@@ -1350,6 +1404,57 @@ def worker_comp(spec):
     return {"obs": [r.run_case(case) for case in spec["cases"]]}
 
 
+# ---- worker C: histories - a template FILE is first used by a component, then by stock tags ----
+def worker_history(spec):
+    """Default Django configuration keeps compiled templates in cached.Loader.  Per case: (1) render the stock page,
+    (2) render a component whose template is one of the files the page includes (get_template_name), (3) render the
+    stock page again from the same loader cache, (4) once more after loader.reset()."""
+    import django
+    from django.conf import settings
+    from pathlib import Path
+    repo = os.environ.get("VERIF_REPO", "/repo")
+    TPL = {}
+    settings.configure(
+        BASE_DIR=Path(repo) / "tests", INSTALLED_APPS=("django_components",),
+        TEMPLATES=[{"BACKEND": "django.template.backends.django.DjangoTemplates", "DIRS": [],
+                    "OPTIONS": {"builtins": ["django_components.templatetags.component_tags"],
+                                "loaders": [("django.template.loaders.cached.Loader", [("django.template.loaders.locmem.Loader", TPL)])]}}],
+        COMPONENTS={"autodiscover": False}, DATABASES={}, SECRET_KEY="x", ROOT_URLCONF="django_components.urls")
+    django.setup()
+    import django_components
+    assert os.path.realpath(django_components.__file__).startswith(os.path.realpath(repo)), django_components.__file__
+    import core_run
+    from django.template import engines
+    from django.template.loader import get_template
+    from django_components import Component
+    engine = engines["django"].engine
+
+    def page(case):
+        try:
+            return ["ok", get_template(case["main"]).render(dict(case["ctx"]))]
+        except Exception as e:  # noqa
+            return ["err", "%s: %s" % (type(e).__name__, str(e)[:200])]
+    out = []
+    for case in spec["cases"]:
+        TPL.clear()
+        TPL.update(case["templates"])
+        for ld in engine.template_loaders:
+            ld.reset()
+        rec = {"id": case["id"], "before": page(case)}
+        cls = type("C10Hist%d" % case["id"], (Component,), {
+            "get_template_name": (lambda self, context, nm=case["component_template"]: nm), "__module__": "verif_c10_hist"})
+        try:
+            rec["component"] = ["ok", core_run.canon(cls.render(context=dict(case["ctx"]), render_dependencies=False))]
+        except Exception as e:  # noqa
+            rec["component"] = ["err", type(e).__name__]
+        rec["after"] = page(case)
+        for ld in engine.template_loaders:
+            ld.reset()
+        rec["after_reset"] = page(case)
+        out.append(rec)
+    return {"obs": out}
+
+
 def main():
     mode, inp, outp = sys.argv[1], sys.argv[2], sys.argv[3]
     spec = json.load(open(inp))
@@ -1357,6 +1462,8 @@ def main():
         res = worker_stock(mode, spec)
     elif mode == "comp":
         res = worker_comp(spec)
+    elif mode == "history":
+        res = worker_history(spec)
     else:
         raise SystemExit("unknown mode " + mode)
     with open(outp, "w") as f:
